@@ -78,14 +78,14 @@ func init() {
 				got["Version."+k] = v
 			}
 			want := map[string]string{
-				"LastBlockHeight": `^` + last + `\.SignedHeader\.Header\.Height$`,
-				"LastBlockTime":   `^` + last + `\.SignedHeader\.Header\.Time$`,
-				"LastBlockID":     `^` + last + `\.SignedHeader\.Commit\.BlockID$`,
-				"LastValidators":  `^` + last + `\.ValidatorSet$`,
-				"AppHash":         `^` + cur + `\.SignedHeader\.Header\.AppHash$`,
-				"LastResultsHash": `^` + cur + `\.SignedHeader\.Header\.LastResultsHash$`,
-				"Validators":      `^` + cur + `\.ValidatorSet$`,
-				"NextValidators":  `^` + next + `\.ValidatorSet$`,
+				"LastBlockHeight":                  `^` + last + `\.SignedHeader\.Header\.Height$`,
+				"LastBlockTime":                    `^` + last + `\.SignedHeader\.Header\.Time$`,
+				"LastBlockID":                      `^` + last + `\.SignedHeader\.Commit\.BlockID$`,
+				"LastValidators":                   `^` + last + `\.ValidatorSet$`,
+				"AppHash":                          `^` + cur + `\.SignedHeader\.Header\.AppHash$`,
+				"LastResultsHash":                  `^` + cur + `\.SignedHeader\.Header\.LastResultsHash$`,
+				"Validators":                       `^` + cur + `\.ValidatorSet$`,
+				"NextValidators":                   `^` + next + `\.ValidatorSet$`,
 				"LastHeightValidatorsChanged":      `^` + next + `\.SignedHeader\.Header\.Height$`,
 				"LastHeightConsensusParamsChanged": `^` + cur + `\.SignedHeader\.Header\.Height$`,
 				"Version.Consensus":                `^` + cur + `\.SignedHeader\.Header\.Version$`,
